@@ -8,7 +8,7 @@ import os
 import sys
 import time
 
-from harness.props import c19_fp, c19_iof, c19_merge, c19_sma, c19_split, c19_sw
+from harness.props import c19_common, c19_fp, c19_iof, c19_merge, c19_sma, c19_split, c19_sw
 
 MODEL_PROPS = ["C19"]
 LEVEL = "proof"
@@ -31,6 +31,9 @@ def run(ctx):
         t0 = time.time()
         m.unit(ctx)
         sys.stderr.write("C19 unit %s: %.1fs\n" % (m.NAME, time.time() - t0))
+    t0 = time.time()
+    c19_common.flush_crosscheck(ctx)
+    sys.stderr.write("C19 kernel cross-check: %.1fs\n" % (time.time() - t0))
 
 
 def replay(ctx, obj):
